@@ -17,6 +17,7 @@ THEOREMS = [{'name': f'Props.C12.{n}', 'module': M} for n in [
     'C12_validate_never_fires_after_renumbering', 'C12_dup_rejected_when_validated_first', 'C12_no_false_rejection',
     'C12_F1_or_fixed', 'C12_F1_witness_silently_merged', 'C12_F1_witness_statement_lost', 'C12_F2_or_fixed',
     'C12_F2_witness', 'C12_current_order', 'C12_dup_rejected_current', 'C12_current_guard', 'C12_stable_current']]
+LINKS = [{'target': 'MorphKgc.Props.PipelineLib', 'needs': ['MorphKgc.Props.' + c for c in ('C01', 'C02', 'C05', 'C06', 'C08', 'C15', 'C18')], 'theorems': [{'name': f'Props.PipelineLib.{n}', 'module': 'MorphKgc.Props.PipelineLib'} for n in ['pipeline_current', 'sections_current', 'lib_set', 'lib_set_canon', 'lib_files', 'lib_graphs_of_statement', 'nulls_rule', 'loaders_of_bodies', 'evalRule_canonNow', 'evalRuleG_of_noRawNulls', 'canonFixed_of_typedOutside', 'lib_graph', 'dup_raises', 'typed_hypothesis_needed']]}]
 RULE = ('pools of 1-5 triples maps of the core fragment (classes, subject/POM graph maps, language tags, datatypes) with referencing object '
         'maps (condition-free, same-column and cross-column joins, parents inside / outside the logical source), identifiers sharing '
         'prefixes, over 1-3 CSV sources; the pool is cut into its closed components, the components are dealt to 1-3 data-source sections '
